@@ -528,28 +528,88 @@ Section FullTransfer.
       rewrite Hdf. reflexivity.
   Qed.
 
+  Lemma strip_d_arg depth first a b :
+    strip_siv a = strip_siv b -> d_arg o E0 depth b ->
+    d_arg o E0' depth a /\ arg_line o E0' depth first a = arg_line o E0 depth first b /\ iv_d E0' a = iv_d E0 b
+    /\ iv_text o E0' a = iv_text o E0 b /\ hasdesc a = hasdesc b.
+  Proof.
+    intros H [Hp Hd].
+    assert (Hf : siv_name a = siv_name b /\ siv_py a = siv_py b /\ siv_type a = siv_type b
+                 /\ siv_default a = siv_default b /\ siv_desc a = siv_desc b
+                 /\ custom_dirs (siv_dirs a) = custom_dirs (siv_dirs b)).
+    { clear -H. destruct a, b. unfold strip_siv in H. cbn in *. injection H as -> -> -> -> -> Hd. repeat split; try reflexivity; assumption. }
+    destruct Hf as (Fn & Fp & Ft & Fd & Fde & Fdi).
+    assert (Hc : strip_siv (clear_siv a) = strip_siv (clear_siv b)).
+    { unfold strip_siv, clear_siv. cbn [siv_name siv_py siv_type siv_default siv_desc siv_dirs]. rewrite Fn, Fp, Ft, Fd, Fdi. reflexivity. }
+    destruct (strip_siv_plain o E0 E0' Henv _ _ Hc Hp) as [Pa Ga].
+    assert (Hiv : iv_text o E0' a = iv_text o E0 b).
+    { change (iv_text o E0' a) with (iv_text o E0' (clear_siv a)). change (iv_text o E0 b) with (iv_text o E0 (clear_siv b)).
+      rewrite <- (pr_input_value_plain o E0' _ Pa), <- (pr_input_value_plain o E0 _ Hp), Ga. reflexivity. }
+    split; [split; [exact Pa|rewrite Fde; exact Hd]|]. split; [unfold arg_line; rewrite Fde, Hiv; reflexivity|].
+    split; [|split; [exact Hiv|unfold hasdesc; rewrite Fde; reflexivity]].
+    unfold iv_d. rewrite Fde, Fn, Ft, Fdi.
+    assert (Hdf : dflt_of E0' a = dflt_of E0 b).
+    { apply (f_equal iv_default) in Ga. cbn [iv_default iv_of] in Ga. exact Ga. }
+    rewrite Hdf. reflexivity.
+  Qed.
+
+  Lemma strip_gargs depth : forall l1 l2 first,
+    map strip_siv l1 = map strip_siv l2 -> Forall (d_arg o E0 depth) l2 ->
+    Forall (d_arg o E0' depth) l1
+    /\ first_map (arg_line o E0' depth) first l1 = first_map (arg_line o E0 depth) first l2
+    /\ map (iv_d E0') l1 = map (iv_d E0) l2
+    /\ map (iv_text o E0') l1 = map (iv_text o E0) l2
+    /\ existsb hasdesc l1 = existsb hasdesc l2.
+  Proof.
+    induction l1 as [|a l1 IH]; intros l2 first He Hf; destruct l2 as [|b l2]; cbn [map] in He;
+      [split; [constructor|cbn [first_map map existsb]; repeat split]|discriminate He|discriminate He|].
+    pose proof (f_equal (fun l => hd (strip_siv a) l) He) as Hab. pose proof (f_equal (@tl _) He) as Hl.
+    cbn [hd tl] in Hab, Hl. inversion Hf as [|? ? Hb Hl2]; subst.
+    destruct (strip_d_arg depth first a b Hab Hb) as (Pa & La & Ga & Ta & Ha).
+    destruct (IH l2 false Hl Hl2) as (Pl & Ll & Gl & Tl & Hl').
+    split; [constructor; assumption|]. cbn [first_map map existsb]. rewrite La, Ll, Ga, Gl, Ta, Tl, Ha, Hl'. repeat split.
+  Qed.
+
+  Lemma gargs_transfer depth l1 l2 :
+    map strip_siv l1 = map strip_siv l2 -> Forall (d_arg o E0 depth) l2 ->
+    Forall (d_arg o E0' depth) l1 /\ gargs o E0' depth l1 = gargs o E0 depth l2 /\ map (iv_d E0') l1 = map (iv_d E0) l2.
+  Proof.
+    intros He Hf. destruct (strip_gargs depth l1 l2 true He Hf) as (P & L & G & T & Hh).
+    split; [exact P|]. split; [|exact G]. unfold gargs, args_block, args_text. rewrite Hh, !(arg_items_first o), L, T.
+    destruct l1, l2; try discriminate; reflexivity.
+  Qed.
+
   Lemma strip_d_sf first a b :
     strip_sf a = strip_sf b -> d_sf o E0 b ->
     d_sf o E0' a /\ f_line o E0' first a = f_line o E0 first b /\ fd_d E0' a = fd_d E0 b.
   Proof.
-    intros H [Hp Hd].
-    assert (Hf : sf_name a = sf_name b /\ sf_py a = sf_py b /\ map strip_siv (sf_args a) = map strip_siv (sf_args b)
+    intros H (([Hg Hc] & Hn & Ht) & Ha & Hd).
+    assert (Hf : sf_name a = sf_name b /\ map strip_siv (sf_args a) = map strip_siv (sf_args b)
                  /\ sf_type a = sf_type b /\ sf_desc a = sf_desc b /\ sf_dep a = sf_dep b
                  /\ custom_dirs (sf_dirs a) = custom_dirs (sf_dirs b)).
-    { clear -H. destruct a, b. unfold strip_sf in H. cbn in *. injection H as -> -> Ha -> -> -> Hd. repeat split; try reflexivity; assumption. }
-    destruct Hf as (Fn & Fp & Fa & Ft & Fde & Fdp & Fdi).
-    assert (Hc : strip_sf (clear_sf a) = strip_sf (clear_sf b)).
-    { unfold strip_sf, clear_sf. cbn [sf_name sf_py sf_args sf_type sf_desc sf_dep sf_dirs]. rewrite Fn, Fp, Fa, Ft, Fdp, Fdi. reflexivity. }
-    destruct (strip_sf_plain o E0 E0' Henv _ _ Hc Hp) as [Pa Ga].
-    assert (Hft : ft o E0' a = ft o E0 b).
-    { change (ft o E0' a) with (ft o E0' (clear_sf a)). change (ft o E0 b) with (ft o E0 (clear_sf b)).
-      destruct (ft_facts o E0' _ Pa) as (<- & _). destruct (ft_facts o E0 _ Hp) as (<- & _). rewrite Ga. reflexivity. }
-    split; [split; [exact Pa|rewrite Fde; exact Hd]|]. split.
-    - unfold f_line. rewrite Fde, Hft. reflexivity.
-    - unfold fd_d, fdirs. rewrite Fde, Fn, Ft, Fdp, Fdi.
-      assert (Hargs : map (iv_of E0') (sf_args a) = map (iv_of E0) (sf_args b)).
-      { apply (f_equal fd_args) in Ga. cbn [fd_args fd_of clear_sf sf_args] in Ga. exact Ga. }
-      rewrite Hargs. reflexivity.
+    { clear -H. destruct a, b. unfold strip_sf in H. cbn in *. injection H as -> _ Ha -> -> -> Hd. repeat split; try reflexivity; assumption. }
+    destruct Hf as (Fn & Fa & Ft & Fde & Fdp & Fdi).
+    destruct (gargs_transfer 1 _ _ Fa Ha) as (Pa & Ga & Ia).
+    split; [|split].
+    - unfold d_sf, dirs_ok. rewrite Fn, Ft, Fde, Fdi. repeat split; assumption.
+    - unfold f_line, ftd, fdirs. rewrite Fde, Fn, Ft, Fdp, Fdi, Ga. reflexivity.
+    - unfold fd_d, fdirs. rewrite Fde, Fn, Ft, Fdp, Fdi, Ia. reflexivity.
+  Qed.
+
+  Lemma strip_m_ddef a b :
+    strip_ddef a = strip_ddef b -> m_ddef o E0 b ->
+    m_ddef o E0' a /\ mdtext o E0' a = mdtext o E0 b /\ mddef E0' a = mddef E0 b.
+  Proof.
+    intros H (Hn & Ha & Hlne & Hl & Hd).
+    assert (Hf : dd_name a = dd_name b /\ dd_desc a = dd_desc b /\ dd_locs a = dd_locs b
+                 /\ map strip_siv (dd_args a) = map strip_siv (dd_args b)).
+    { clear -H. destruct a, b. unfold strip_ddef in H. cbn in *. injection H as -> -> -> Hargs. repeat split; try reflexivity; assumption. }
+    destruct Hf as (Fn & Fde & Fl & Fa).
+    destruct (gargs_transfer 0 _ _ Fa Ha) as (Pa & Ga & Ia).
+    split; [|split].
+    - unfold m_ddef. rewrite Fn, Fde, Fl. repeat split; assumption.
+    - unfold mdtext, mdcore. rewrite Fn, Fde, Fl, Ga. reflexivity.
+    - unfold mddef, mdcore_def. rewrite Fn, Fde, Fl, Ia. reflexivity.
   Qed.
 End FullTransfer.
 
@@ -633,11 +693,11 @@ Proof.
   set (E0 := env_of_schema [] sc) in *. set (E0' := env_of_schema [] sc') in *.
   set (st := sort_by tdef_name (s_types sc)) in *. set (sd := sort_by dd_name (s_ddefs sc)) in *.
   assert (Hst : Forall (full_tdef o E0) st) by (apply sort_by_Forall; exact Ht).
-  assert (Hsd : Forall (dt_ddef o E0) sd) by (apply sort_by_Forall; exact Hd).
+  assert (Hsd : Forall (m_ddef o E0) sd) by (apply sort_by_Forall; exact Hd).
   destruct (map_eq_transfer3 strip_tdef (full_tdef o E0) (full_tdef o E0') (ftext o E0) (ftext o E0') (fdef E0) (fdef E0')
               (strip_full_tdef o E0 E0' Henv) _ _ Hts Hst) as [Pt Gt].
-  destruct (map_eq_transfer3 strip_ddef (dt_ddef o E0) (dt_ddef o E0') (dtext_d o E0) (dtext_d o E0') (ddef_d E0) (ddef_d E0')
-              (strip_dt_ddef o E0 E0' Henv) _ _ HD Hsd) as [Pd Gd].
+  destruct (map_eq_transfer3 strip_ddef (m_ddef o E0) (m_ddef o E0') (mdtext o E0) (mdtext o E0') (mddef E0) (mddef E0')
+              (strip_m_ddef o E0 E0' Henv) _ _ HD Hsd) as [Pd Gd].
   assert (Hsort_t : sort_by tdef_name (s_types sc') = s_types sc').
   { apply sort_by_id. apply (sorted_by_keys tdef_name tdef_name _ st); [|apply sort_by_sorted].
     rewrite <- (strip_names (s_types sc')), <- (strip_names st), Hts. reflexivity. }
@@ -703,22 +763,40 @@ Proof. destruct v; cbn; intros ->; reflexivity. Qed.
 Lemma clear_siv_id a : siv_desc a = None -> clear_siv a = a.
 Proof. destruct a; cbn; intros ->; reflexivity. Qed.
 
+Lemma plain_d_sf o E0 f : plain_sf o E0 f -> d_sf o E0 f.
+Proof.
+  intros (Hd & Hdirs & Hn & Ht & Ha). split; [split; [exact Hdirs|split; assumption]|]. split; [|rewrite Hd; exact I].
+  eapply Forall_impl; [|exact Ha]. intros a Hp. pose proof Hp as (_ & Hde & _).
+  split; [rewrite (clear_siv_id a Hde); exact Hp|rewrite Hde; exact I].
+Qed.
+
 Lemma plain_m_tdef o E0 t : plain_tdef o E0 t -> m_tdef o E0 t.
 Proof.
   intros (Hde & Hdirs & Hname & Hk). split; [exact Hde|]. split; [exact Hdirs|]. split; [exact Hname|].
   destruct t; try exact Hk.
   - destruct Hk as (Hne & Hf & Hi). split; [exact Hne|]. split; [|exact Hi].
-    eapply Forall_impl; [|exact Hf]. intros f Hp. pose proof Hp as (Hd & _). split; [rewrite (clear_sf_id f Hd); exact Hp|rewrite Hd; exact I].
+    eapply Forall_impl; [|exact Hf]. intros f Hp. apply plain_d_sf; exact Hp.
   - destruct Hk as (Hne & Hf). split; [exact Hne|].
-    eapply Forall_impl; [|exact Hf]. intros f Hp. pose proof Hp as (Hd & _). split; [rewrite (clear_sf_id f Hd); exact Hp|rewrite Hd; exact I].
+    eapply Forall_impl; [|exact Hf]. intros f Hp. apply plain_d_sf; exact Hp.
   - destruct Hk as (Hne & Hf). split; [exact Hne|].
     eapply Forall_impl; [|exact Hf]. intros f Hp. pose proof Hp as (Hd & _). split; [rewrite (clear_sev_id f Hd); exact Hp|rewrite Hd; exact I].
   - destruct Hk as (Hne & Hf). split; [exact Hne|].
     eapply Forall_impl; [|exact Hf]. intros f Hp. pose proof Hp as (_ & Hd & _). split; [rewrite (clear_siv_id f Hd); exact Hp|rewrite Hd; exact I].
 Qed.
 
-Lemma desc_schema_full o sc : desc_schema o sc -> full_schema o sc.
+Lemma dt_m_ddef o E0 d :
+  dt_ddef o E0 d -> Forall (fun l => In l (map str_of_string directive_location_names)) (dd_locs d) -> m_ddef o E0 d.
 Proof.
-  intros (Ht & Hd & Hr & Hne). split; [|split; [exact Hd|split; assumption]].
-  eapply Forall_impl; [|exact Ht]. intros t [Hp Hde]. split; [apply plain_m_tdef; exact Hp|exact Hde].
+  intros [(_ & Hn & Ha & Hlne & _) Hd] Hl. cbn [clear_ddesc dd_name dd_args dd_locs] in *.
+  split; [exact Hn|]. split; [|split; [exact Hlne|split; [exact Hl|exact Hd]]].
+  eapply Forall_impl; [|exact Ha]. intros a Hp. pose proof Hp as (_ & Hde & _).
+  split; [rewrite (clear_siv_id a Hde); exact Hp|rewrite Hde; exact I].
+Qed.
+
+Lemma desc_schema_full o sc : desc_schema o sc -> valid_locations sc -> full_schema o sc.
+Proof.
+  intros (Ht & Hd & Hr & Hne) Hl. split; [|split; [|split; assumption]].
+  - eapply Forall_impl; [|exact Ht]. intros t [Hp Hde]. split; [apply plain_m_tdef; exact Hp|exact Hde].
+  - apply Forall_forall. intros d Hin. unfold valid_locations in Hl. rewrite Forall_forall in Hd, Hl.
+    apply dt_m_ddef; [apply Hd|apply Hl]; exact Hin.
 Qed.
